@@ -39,6 +39,12 @@ def scenarios(quick):
     out.append({"name": "churn", "steps": ["create:1"] + churn + ["create:1", "delete"]})
     out.append({"name": "churn-burst", "steps": ["create:1", "settle", "burst"] + churn + ["create:1", "delete"]})
     out.append({"name": "churn-catalogue", "steps": sum([[c, "create:1"] if i % 5 == 0 else [c] for i, c in enumerate(churn)], []) + ["delete"]})
+    # a restart that re-announces a peer which the catalogue already lists as a replica of an under-replicated
+    # partition, followed by that peer's removal: the worker has to get through both
+    for steps in (["burst", "rcreate:3:1,2", "conf+2", "conf-2"], ["rcreate:3:1,2", "conf+2", "settle", "conf+3", "conf-2"],
+                  ["burst", "rcreate:3:1,2", "rcreate:2:1", "conf+2", "conf+3", "create:2", "conf-3"], ["burst", "conf+2", "create:3", "conf-2"],
+                  ["rcreate:2:1,2", "rcreate:3:1,3", "conf+3", "conf+2", "settle", "create:1", "conf-2", "delete"]):
+        out.append({"name": "reannounce", "steps": steps})
     # membership changes while other goroutines of the node dial peers (two locks in cluster.Conn: address book, connections)
     dchurn = []
     for i in range(40 if quick else 150):
@@ -73,10 +79,11 @@ def run(ctx):
     d = ctx.specdir()
     base = open(d + "/ControlPlane_mc.cfg").read()
 
-    def tlc(ents, ur, under, name, count=True, inline="FALSE", cap=10):
+    def tlc(ents, ur, under, name, count=True, inline="FALSE", cap=10, answer="TRUE"):
         txt = base.replace("Entries <- E_conf_create", "Entries <- " + ents).replace("UnderRepl = TRUE", "UnderRepl = " + ur) \
                   .replace("WatchSendUnderLock = FALSE", "WatchSendUnderLock = " + under) \
-                  .replace("InlineNodeChanges = FALSE", "InlineNodeChanges = " + inline).replace("NotifCap = 10", "NotifCap = %d" % cap)
+                  .replace("InlineNodeChanges = FALSE", "InlineNodeChanges = " + inline).replace("NotifCap = 10", "NotifCap = %d" % cap) \
+                  .replace("AnswerEveryUpd = TRUE", "AnswerEveryUpd = " + answer)
         open(d + "/" + name + ".cfg", "w").write(txt)
         return ctx.tlc("ControlPlaneMC", name + ".cfg", timeout=300, name=name, count=count)
     for ents, ur, cap in ok:
@@ -91,6 +98,10 @@ def run(ctx):
     ctx.cov["binding_selftest"]["switch_InlineNodeChanges_TRUE_conf_create_gives_deadlock"] = r2.deadlock
     r3 = tlc("E_churn", "TRUE", "FALSE", "cp-inline-notif", count=False, inline="TRUE", cap=2)
     ctx.cov["binding_selftest"]["switch_InlineNodeChanges_TRUE_churn_gives_deadlock"] = r3.deadlock
+    r4 = tlc("E_conf_create", "TRUE", "FALSE", "cp-noanswer", count=False, answer="FALSE")
+    ctx.cov["binding_selftest"]["switch_AnswerEveryUpd_FALSE_gives_deadlock"] = r4.deadlock
+    if not r4.deadlock:
+        raise vlib.NoVerdict("vacuity guard failed: an applied proposal that is never answered does not deadlock the model")
     if not (r1.deadlock and r2.deadlock and r3.deadlock):
         raise vlib.NoVerdict("vacuity guard failed: a shipped behaviour does not deadlock the model (%s %s %s)" % (r1.deadlock, r2.deadlock, r3.deadlock))
     # cluster.Conn's two locks: the apply loop (RemoveNode / AddNode) against dialling goroutines
